@@ -451,6 +451,67 @@ def reuse_harness(e):
     return {"rule_variant": variant, "strict": bool(strict), "inputs_kept_alive": bool(keep_inputs)}
 
 
+_SAME: dict[str, Any] = {}
+
+
+def _same_named_classes():
+    """Two node classes with one __name__ in one module (two dialect factories, a class defined
+    again in a notebook cell) and different bases; the library accepts them."""
+    if not _SAME:
+        from models.zoo import VBase
+
+        @dataclasses.dataclass(frozen=True)
+        class SExpr(VBase):
+            v: int = 0
+
+        @dataclasses.dataclass(frozen=True)
+        class SStmt(VBase):
+            v: int = 0
+
+        def mk(base):
+            @dataclasses.dataclass(frozen=True)
+            class SName(base):
+                w: int = 0
+
+            return SName
+
+        _SAME.update(SExpr=SExpr, SStmt=SStmt, a=mk(SExpr), b=mk(SStmt))
+    return _SAME
+
+
+def same_named_harness(e):
+    """Dispatch follows the MRO of the visited node's own class, whatever other class of the same
+    name was visited before (by this visitor or another one)."""
+    from pyoak.visitor import ASTVisitor
+
+    reset_all()
+    C = _same_named_classes()
+    with_own = e.pick([False, True], "visitor_has_a_method_for_the_shared_name")
+    strict = e.pick([False, True], "strict")
+    order = e.pick(["a-then-b", "b-then-a", "a-then-b-by-another-visitor-object"], "order")
+
+    def make():
+        ns = {"generic_visit": lambda self, node: "generic", "visit_SExpr": lambda self, node: "SExpr", "visit_SStmt": lambda self, node: "SStmt", "strict": strict}
+        if with_own:
+            ns["visit_SName"] = lambda self, node: "SName"
+        return type("SameNamedVisitor", (ASTVisitor,), ns)()
+
+    vis = make()
+    seq = ["a", "b"] if order != "b-then-a" else ["b", "a"]
+    got, want = [], []
+    for k, which in enumerate(seq):
+        node = C[which](v=k, w=k)
+        if k == 1 and order.endswith("another-visitor-object"):
+            vis = make()
+        got.append(vis.visit(node))
+        want.append("SName" if with_own else ("generic" if strict else {"a": "SExpr", "b": "SStmt"}[which]))
+    scenario = {"order": order, "strict": strict, "visitor_has_a_method_for_the_shared_name": with_own, "dispatched_to": got, "expected": want}
+    if got != want:
+        e.fail("dispatch-wrong:same-named-classes", scenario=scenario)
+    e.distinct((with_own, strict, order))
+    return scenario
+
+
 def spec(tier: str, seed: int) -> Spec:
     wide = [number(R("VMany", items=(R("VFalsy"), R("VLeaf"), R("VFalsy")))), number(R("VMixed", first=R("VFalsy"), items=(R("VFalsy"),), one=R("VFalsy"))), number(R("VReq", child=R("VMany", items=(R("VLeaf"), R("VFalsy"))))),
             number(R("VMany", items=(R("VLeaf"), R("VSubLeaf"), R("VLeaf")))), number(R("VMixed", first=R("VLeaf"), items=(R("VLeaf"), R("VLeaf")), one=R("VLeaf"))), number(R("VInh", first=R("VLeaf"), items=(R("VLeaf"),), one=None, extra=R("VMany", items=(R("VLeaf"),))))]
@@ -480,6 +541,7 @@ def spec(tier: str, seed: int) -> Spec:
         fams.append(Family(f"multiple-inheritance-first-{first}", make_harness([], ["leaf-class-only"] if tier == "quick" else ["leaf-class-only", "base-class-only", "none"], prepare=lambda e, _f=first: _mi_prepare(e, (_f,))), variables=var + "; freshly created classes with multiple inheritance / plain dataclass mixins / empty bodies"))
     for k, shp in enumerate(_twin_shapes()):
         fams.append(Family(f"stale-twins[{k}]", make_harness([shp], ["own-classes", "leaf-class-only"], builder=build_stale_twins), variables=var + "; equal siblings are distinct objects sharing one id (the earlier one left the registry first)"))
+    fams.append(Family("same-named-classes-with-different-bases", same_named_harness, variables="selectors: which class is visited first, strict, whether the visitor has a method for the shared name, one or two visitor objects"))
     fams.append(Family("visitor-object-reused", reuse_harness, variables="selectors: rule variant, strict, whether earlier inputs stay alive; 40 transforms by one visitor object per path"))
     fams.append(Family("mixin-in-mro", make_harness(mixed, ["base-class-only", "leaf-class-only", "root-class-only", "sub-leaf-and-leaf", "own-classes"]), variables=var + "; classes with a non-node mixin before / after the node base, and a diamond"))
     return Spec(
